@@ -34,7 +34,7 @@ ASSUMPTIONS = [
     "inputs are the vendored corpus fonts (no generated fonts: not this technique)",
     "tables that carry free text are compared after XML white-space normalisation of their dumps when their bytes differ, as the property allows",
 ]
-EXPECTED_PROBES = ["edit.emptyprog", "foreign", "foreign.VDMX", "merge.untouched_checked", "edit.reorder", "input.generated", "expat.split_text_node", "reader.short", "reader.text", "reader.path", "bufsize.1", "dump.splitTables", "dump.splitGlyphs", "newline.crlf", "lossless.tables_checked"]
+EXPECTED_PROBES = ["damage.kept_raw", "edit.emptyprog", "foreign", "foreign.VDMX", "merge.untouched_checked", "edit.reorder", "input.generated", "expat.split_text_node", "reader.short", "reader.text", "reader.path", "bufsize.1", "dump.splitTables", "dump.splitGlyphs", "newline.crlf", "lossless.tables_checked"]
 
 TIERS = {
     "quick": {"budget_s": 600, "determinism_sample": 10, "n": {"sweep": 1500}, "minimise_s": 40, "max_minimise": 3},
@@ -57,7 +57,7 @@ def _fonts():
     return corpus.binaries() + ["gen:%d" % i for i in range(N_GENERATED)] + ttx + blobs
 
 
-NASTY_GLYPH_NAMES = ["A/B", "A_B", "a:b", "a*b", "a_b", "x&y", "x<y", "x>y", 'q"r', "p'q", "a", "A", "Aa", "aA", "AA", "aa", "con", "CON", "Con", "aux", "nul.alt", "com1", "a.alt", "A.alt", "f_f_i", "F_F_I", "uni0041", "u1F600", "semi;colon", "per%cent", "hash#", "at@", "back\\slash", "pipe|", "br[ack]et", "plus+", "q?mark", "x" * 60, "X" * 60, "x" * 59 + "Y", "dot.", ".dot", "_", "__", "a__", "A__"]
+NASTY_GLYPH_NAMES = ["None", "True", "False", "null", "nan", "0", "A/B", "A_B", "a:b", "a*b", "a_b", "x&y", "x<y", "x>y", 'q"r', "p'q", "a", "A", "Aa", "aA", "AA", "aa", "con", "CON", "Con", "aux", "nul.alt", "com1", "a.alt", "A.alt", "f_f_i", "F_F_I", "uni0041", "u1F600", "semi;colon", "per%cent", "hash#", "at@", "back\\slash", "pipe|", "br[ack]et", "plus+", "q?mark", "x" * 60, "X" * 60, "x" * 59 + "Y", "dot.", ".dot", "_", "__", "a__", "A__"]
 
 
 def gen_program(r):
@@ -105,9 +105,25 @@ def gen_font(i):
 
         r = prng.sub("c03-gen", i)
         names = [".notdef"] + r.sample(NASTY_GLYPH_NAMES, r.randint(6, 16))
+        if i % 4 == 0 and "None" not in names:
+            names.insert(1 + r.randrange(len(names) - 1), "None")
         fb = FontBuilder(1000, isTTF=True)
         fb.setupGlyphOrder(names)
-        fb.setupCharacterMap({0x41 + k: n for k, n in enumerate(names[1:])})
+        cm = {0x41 + k: n for k, n in enumerate(names[1:])}
+        uvs = None
+        if r.random() < 0.6:
+            # Unicode variation sequences (cmap format 14): default mappings (no glyph named) and non-default
+            # ones, to any glyph - also to the ones with awkward names
+            uvs = []
+            for k in range(r.randint(1, 6)):
+                base = 0x41 + r.randrange(len(names) - 1)
+                vs = r.choice([0xFE00, 0xFE0F, 0xE0100, 0xE0101])
+                if (base, vs) not in [(a, b) for a, b, _ in uvs]:
+                    uvs.append((base, vs, None if r.random() < 0.3 else r.choice(names[1:])))
+            for lit in ("None", "True", "null"):
+                if lit in names and r.random() < 0.8:
+                    uvs = [u for u in uvs if (u[0], u[1]) != (0x41, 0xFE01)] + [(0x41, 0xFE01, lit)]
+        fb.setupCharacterMap(cm, uvs=uvs)
         glyphs = {}
         for k, n in enumerate(names):
             pen = TTGlyphPen(None)
@@ -222,6 +238,9 @@ def generate(ctx, batch, idx):
         "lazy": r.choice([None, True, False]),
         # the source as another conforming writer stores it / with tables no corpus font has (TrueType only)
         "foreign": r.randrange(1 << 30) if r.random() < 0.2 else None,
+        # a table whose payload is damaged, opened the way the ttx command opens fonts (decompile errors
+        # ignored: the table is kept raw, dumped as hex and must come back as the same bytes)
+        "damage": r.randrange(1 << 30) if sel is None and r.random() < 0.08 else None,
         # EDITs applied to the object model before it is dumped (values the corpus lacks)
         "ops": ops,
     }
@@ -290,6 +309,8 @@ def _import(h, main_path, data, reader, bufsize, rseed, probes, base_font_bytes=
 
 _WS = re.compile(r"\s+")
 _WS_BYTES = bytes(32 if c in (9, 10, 13) else c for c in range(256))
+# tables whose damaged payload does not take the rest of the font down with it (compare C20's findings K3-K7)
+DAMAGEABLE = {"GSUB", "GPOS", "GDEF", "BASE", "MATH", "JSTF", "STAT", "name", "COLR", "CPAL", "kern", "gasp", "meta", "cvt ", "VDMX", "hdmx", "LTSH", "morx", "trak", "feat", "avar", "MVAR", "HVAR"}
 FREE_TEXT_TABLES = {"name", "meta", "SVG ", "Debg", "TSI1", "TSI3", "TSI5", "TSIV", "TSIJ", "TSIP", "TSIS", "TSID", "TSIB", "TSIC", "ltag"}
 
 
@@ -347,9 +368,33 @@ def _execute(ctx, h, scratch):
         if not res.get("violation"):
             res["violation"] = {"class": cls, "detail": detail + " [%s opts=%s newline=%r reader=%s BUFSIZE=%d select=%s]" % (rel, h["opts"], h["newline"], h["reader"], h["bufsize"], h["select"]), "sig": dict(sig, font=rel)}
 
+    damaged = None
+    if h.get("damage") is not None and src is not None and container.kind_of(src) == "sfnt":
+        rr = prng.sub("c03damage", h["damage"])
+        try:
+            tabs = dict(container.tables_of(src))
+            cands = sorted(t for t in tabs if t in DAMAGEABLE and len(tabs[t]) >= 8)
+            if cands:
+                damaged = rr.choice(cands)
+                d = tabs[damaged]
+                how = rr.choice(["trunc", "trunc", "flip", "garbage"])
+                if how == "trunc":
+                    d = d[: rr.randint(1, len(d) - 1)]
+                elif how == "flip":
+                    d = bytearray(d)
+                    for _ in range(rr.randint(1, 6)):
+                        d[rr.randrange(len(d))] ^= 1 << rr.randrange(8)
+                    d = bytes(d)
+                else:
+                    d = bytes(rr.randrange(256) for _ in range(rr.randint(4, 40)))
+                tabs[damaged] = d
+                src = container.rebuild_sfnt(src[:4], tabs)
+                probes["damage." + how] = 1
+        except (struct.error, KeyError, IndexError, ValueError):
+            damaged = None
     # the source object model and what it compiles to
     try:
-        font = TTFont(io.BytesIO(src), lazy=h["lazy"], recalcTimestamp=False)
+        font = TTFont(io.BytesIO(src), lazy=h["lazy"], recalcTimestamp=False, ignoreDecompileErrors=damaged is not None)
         tags = [t for t in font.keys() if t != "GlyphOrder"]
         for name, seed in h.get("ops", []):
             rr = prng.sub("edit", seed)
@@ -452,6 +497,8 @@ def _execute(ctx, h, scratch):
             dt = ["?"]
         fail("import-depends-on-delivery", "importing the same dump through a path and through the simulated delivery gives different fonts; tables %s" % dt, tables=dt)
         return res
+    if damaged is not None and damaged in font and type(font[damaged]).__name__ == "DefaultTable":
+        probes["damage.kept_raw"] = 1
     # losslessness against the source object model
     try:
         ta, tr = container.tables_of(a), container.tables_of(ref)
